@@ -20,6 +20,10 @@
 (*                 declared magnitude (deck: 1 = opaque)                   *)
 (*   tot[k]        what the model integrates: the sum over the hazes       *)
 (*                                                                         *)
+(* Actions: AddSlab (any kind, any bounds / deck position, up to MaxSlabs) *)
+(* and Prepare (the next slab of the list reads the exposed arrays; the    *)
+(* first Prepare closes the list, the last one integrates).                *)
+(*                                                                         *)
 (* Scratch = "copy": a slab works on private copies (the rule of the       *)
 (* implementation).  Scratch = "levels" / "layers": the grey haze / the    *)
 (* mask-based contributions (Lee haze, deck) leave their working           *)
